@@ -600,6 +600,8 @@ func isNilRef(x value) bool {
 		return x == nil
 	case []value:
 		return x == nil
+	case nativeFn:
+		return x == nil
 	}
 	panic(fmt.Sprintf("isNilRef: %T", x))
 }
